@@ -112,7 +112,8 @@ CHECKS.update({
             "declaratively per short name; frame obligation: no layer is altered, a parent's own view is unchanged. "
             "The real _finalize_init runs on a two-layer hierarchy with 17 object categories and symbolic NOT-INHERITED "
             "lists: every category inherits its own objects minus the list that governs that category, also after a "
-            "second refresh with changed raw data.",
+            "second refresh with changed raw data; three real raw layers with real PARENT-REFs and an ODXLINK database "
+            "go through _resolve_odxlinks and _finalize_init twice.",
             "whole-view postcondition + frame condition of the value-inheritance function; presence, equality and "
             "NOT-INHERITED flags symbolic, hierarchy shapes enumerated; z3"),
     "C14": ("the real VariantMatcher (request_loop generator driven through a consumer hook, evaluate, cache handling, "
@@ -138,13 +139,14 @@ CHECKS.update({
 })
 
 E2E = (" Above the leaf: (a) composite level - the real BasicStructure/Request/Response encode/decode loops over abstract "
-       "parameters that satisfy the Codec interface contract (paired encode/decode harness); (b) end-to-end - 42 real "
+       "parameters that satisfy the Codec interface contract (paired encode/decode harness); (b) end-to-end - 47 real "
        "parameter descriptions built natively (coded constants, value parameters with IDENTICAL/LINEAR methods, reserved, "
        "matching-request, NRC-const, physical constants, system parameters, nested structures, end-of-PDU / static / "
        "dynamic-length / dynamic-endmarker fields, MIN-MAX-LENGTH, LEADING-LENGTH-INFO, PARAM-LENGTH-INFO with length "
        "keys, multiplexer, TABLE-KEY/TABLE-STRUCT, DTC DOPs, environment data descriptions) are "
+       "built by the real constructors and resolved by the library's own _resolve_odxlinks/_resolve_snrefs, then "
        "run through the real Request/Response.encode and decode with values and message bytes symbolic; these are "
-       "labelled B (42 concrete descriptions, field/byte-field lengths bounded; values symbolic) and are reported as "
+       "labelled B (47 concrete descriptions, field/byte-field lengths bounded; values symbolic) and are reported as "
        "bounded checks, never counted as proved; for 19 descriptions the PDU is compared with an independently "
        "written wire image (17 descriptions), and decoded values must be backed by the bytes of the message.")
 for k in ("C01","C02","C03","C04","C05","C08"):
